@@ -195,25 +195,47 @@ static std::vector<std::string> split(const std::string &s, char c) {
 static unsigned long n_nparty = 0;
 // returns false when the run is inconclusive (a failed check in a run in which a time-out expired: outside the synchrony
 // assumption, see docs/C17.md); all findings of a conclusive run are reported
-static bool nparty_once(std::vector<std::pair<std::string, std::string> > &pending, const Grp &G, size_t n, size_t t, const std::vector<bool> &faulty, uint64_t seed) {
+typedef std::map<size_t, Deviation> Devs;
+static bool nparty_once(std::vector<std::pair<std::string, std::string> > &pending, const Grp &G, size_t n, size_t t, const std::vector<bool> &faulty_in, uint64_t seed, const Devs &devs = Devs()) {
+	std::vector<bool> faulty(faulty_in), lib_faulty(faulty_in);      // faulty = not honest (library switch or scripted deviation)
+	bool silence = false;
+	for (auto &d : devs) { faulty[d.first] = true; if (!d.second.drop.empty() || d.second.answer == 2 || d.second.opening == 2) silence = true; }
 	std::vector<std::pair<std::string, std::string> > fails; std::vector<std::string> recs;
 	auto propfail = [&](const std::string &k, const std::string &w) { fails.push_back(std::make_pair(k, w)); };
 	std::vector<bool> fr(n); for (size_t i = 0; i < n; i++) fr[i] = gen().coin();
-	ForkResult FR = fork_parties(n, t, seed, aiounicast::aio_timeout_long, 240, [&](size_t i, aiounicast *aiou, CachinKursawePetzoldShoupRBC *rbc, std::ostream &res) {
+	// a scripted silence costs one library time-out per missing message: shorter time-outs for such runs
+	ForkResult FR = fork_parties(n, t, seed, silence ? aiounicast::aio_timeout_short : aiounicast::aio_timeout_long, 240, [&](size_t i, aiounicast *aiou, CachinKursawePetzoldShoupRBC *rbc, std::ostream &res) {
 		JareckiLysyanskayaEDCF edcf(n, t, G.p, G.q, G.g, G.h, mpz_sizeinbase(G.p, 2), mpz_sizeinbase(G.q, 2));
 		mpz_t a; mpz_init(a); std::ostringstream err;
 		script_ulong(fr[i] ? 1UL : 0UL);
 		bool ok = false; std::string exc;
-		try { ok = edcf.Flip(i, a, aiou, rbc, err, faulty[i]); } catch (std::exception &e) { exc = e.what(); }
+		if (devs.count(i) && tamper_broadcast()) {
+			// the deviating party runs the honest code; its broadcasts are rewritten by value: the share revealed to answer the complaint
+			// of a tampered recipient, and the opening a_i of its coin share
+			Deviation d = devs.at(i); JareckiLysyanskayaRVSS *rv = edcf.rvss; mpz_srcptr q = G.q;
+			tamper_broadcast()->decide = [d, rv, i, q](mpz_srcptr pl, mpz_ptr rep) -> int {
+				if (mpz_sgn(pl) == 0) return 0;
+				if (d.answer) { std::set<size_t> vs(d.wrong); vs.insert(d.drop.begin(), d.drop.end());
+					for (size_t v : vs) if (mpz_cmp(pl, rv->alpha_ij[i][v]) == 0) { if (d.answer == 2) return 2; mpz_add_ui(rep, pl, 1); mpz_mod(rep, rep, q); return 1; } }
+				if (d.opening && mpz_cmp(pl, rv->a_i) == 0) { if (d.opening == 2) return 2; mpz_add_ui(rep, pl, 1); mpz_mod(rep, rep, q); return 1; }
+				return 0; };
+		}
+		try { ok = edcf.Flip(i, a, aiou, rbc, err, lib_faulty[i]); } catch (std::exception &e) { exc = e.what(); }
 		res << "ret=" << (ok ? 1 : 0) << "\n" << "exc=" << exc << "\n" << "coin=" << hx(a) << "\n";
 		res << "a=" << hx(edcf.rvss->a_i) << "\n" << "hata=" << hx(edcf.rvss->hata_i) << "\n";
 		res << "qual="; for (size_t k = 0; k < edcf.rvss->Qual.size(); k++) res << (k ? "," : "") << edcf.rvss->Qual[k]; res << "\n";
 		res << "C="; for (size_t j = 0; j < n; j++) res << (j ? "," : "") << hx(edcf.rvss->C_ik[j][0]); res << "\n";
+		// the party's private shares of every dealer and its view of all commitments
+		for (size_t j = 0; j < n; j++) { res << "sh" << j << "=" << hx(edcf.rvss->alpha_ij[j][i]) << "," << hx(edcf.rvss->hatalpha_ij[j][i]) << "\n";
+			res << "cm" << j << "="; for (size_t k = 0; k <= t; k++) res << (k ? "," : "") << hx(edcf.rvss->C_ik[j][k]); res << "\n"; }
 		{ std::string l = err.str(); if (l.size() > 1500 && !getenv("VERIF_DEBUG")) l = l.substr(l.size() - 1500); std::replace(l.begin(), l.end(), '\n', '~'); res << "log=" << l << "\n"; }
-	});
+	}, devs.empty() ? 0 : &devs, G.q);
 	std::string fs; for (size_t i = 0; i < n; i++) fs += faulty[i] ? '1' : '0';
+	for (auto &d : devs) fs += " deviation of P" + std::to_string(d.first) + ": " + d.second.str();
 	std::string ctx = "n=" + std::to_string(n) + " t=" + std::to_string(t) + " faulty=" + fs + " seed=" + std::to_string(seed) + " p=" + hx(G.p) + " q=" + hx(G.q) + " g=" + hx(G.g) + " h=" + hx(G.h);
-	if (getenv("VERIF_DEBUG")) for (size_t i = 0; i < n; i++) fprintf(stderr, "P%zu: %s\n", i, res_get(FR.text[i], "log").c_str());
+	if (getenv("VERIF_DEBUG")) for (size_t i = 0; i < n; i++) { fprintf(stderr, "P%zu: %s\n", i, res_get(FR.text[i], "log").c_str());
+		for (size_t j = 0; j < n; j++) fprintf(stderr, "  P%zu sh%zu=%s cm%zu=%s\n", i, j, res_get(FR.text[i], "sh" + std::to_string(j)).c_str(), j, res_get(FR.text[i], "cm" + std::to_string(j)).c_str());
+		fprintf(stderr, "  P%zu a=%s coin=%s\n", i, res_get(FR.text[i], "a").c_str(), res_get(FR.text[i], "coin").c_str()); }
 	auto finish = [&]() {
 		if (fails.empty()) { for (auto &r : recs) { fputs(r.c_str(), stdout); } return true; }
 		if (FR.timing_trouble()) { fprintf(stderr, "c17: nparty inconclusive (time-out expired in the run; %s): %s\n", fails[0].first.c_str(), ctx.c_str()); pending = fails; return false; }
@@ -234,12 +256,44 @@ static bool nparty_once(std::vector<std::pair<std::string, std::string> > &pendi
 		}
 	}
 	if (first) return finish();
-	// the coin is the sum of the committed shares of Qual (the committed share of a deviating member is reconstructed)
+	// 0 <= coin < q
+	{ mpz_t c; mpz_init(c); mpz_set_str(c, coin.c_str(), 16);
+	  if (mpz_sgn(c) < 0 || mpz_cmp(c, G.q) >= 0) propfail("nparty-coin-out-of-range", "coin " + coin + " is not in [0, q): " + ctx); mpz_clear(c); }
+	// the coin is the sum of the COMMITTED shares of Qual.  The committed share of every member of Qual is recomputed here from the
+	// honest parties' private shares: a share counts if it matches the dealer's commitments (as seen by the first honest party),
+	// t+1 such shares are interpolated at 0.  An honest party holding a share of a Qual member that does not match is reported.
 	mpz_t sum, v; mpz_init(sum); mpz_init(v);
 	std::vector<std::string> Q = split(qual, ','); bool known = true;
+	size_t h0 = 0; while (h0 < n && faulty[h0]) h0++;
+	auto share_ok = [&](size_t holder, size_t dealer, mpz_ptr alpha_out) {
+		std::vector<std::string> sh = split(res_get(FR.text[holder], "sh" + std::to_string(dealer)), ','), cm = split(res_get(FR.text[h0], "cm" + std::to_string(dealer)), ',');
+		if (sh.size() != 2 || cm.size() != t + 1) return false;
+		mpz_t al, ha, lhs, rhs, e, c; mpz_init(al); mpz_init(ha); mpz_init(lhs); mpz_init(rhs); mpz_init(e); mpz_init(c);
+		mpz_set_str(al, sh[0].c_str(), 16); mpz_set_str(ha, sh[1].c_str(), 16);
+		mpz_mod(e, al, G.q); mpz_powm(lhs, G.g, e, G.p); mpz_mod(e, ha, G.q); mpz_powm(rhs, G.h, e, G.p); mpz_mul(lhs, lhs, rhs); mpz_mod(lhs, lhs, G.p);
+		mpz_set_ui(rhs, 1);
+		for (size_t k = 0; k <= t; k++) { mpz_set_str(c, cm[k].c_str(), 16); mpz_ui_pow_ui(e, holder + 1, k); mpz_powm(c, c, e, G.p); mpz_mul(rhs, rhs, c); mpz_mod(rhs, rhs, G.p); }
+		bool ok = (mpz_cmp(lhs, rhs) == 0); mpz_set(alpha_out, al);
+		mpz_clear(al); mpz_clear(ha); mpz_clear(lhs); mpz_clear(rhs); mpz_clear(e); mpz_clear(c); return ok; };
 	for (auto &js : Q) { if (js.empty()) continue; size_t j = strtoul(js.c_str(), 0, 10);
-		std::string aj = res_get(FR.text[j], "a"); if (aj.empty()) { known = false; break; }
-		mpz_set_str(v, aj.c_str(), 16); mpz_add(sum, sum, v); mpz_mod(sum, sum, G.q); }
+		std::vector<size_t> pts; std::vector<std::string> vals; mpz_t al; mpz_init(al);
+		for (size_t i = 0; i < n; i++) if (!faulty[i]) {
+			if (share_ok(i, j, al)) { if (pts.size() < t + 1) { pts.push_back(i); vals.push_back(hx(al)); } }
+			else propfail("nparty-stale-share", "honest party " + std::to_string(i) + " ends with a private share of Qual member " + std::to_string(j) + " that does not match the commitments (share " +
+				res_get(FR.text[i], "sh" + std::to_string(j)) + "): " + ctx);
+		}
+		mpz_clear(al);
+		std::string aj = res_get(FR.text[j], "a");
+		if (pts.size() == t + 1) {           // Lagrange at 0 over the points pts[k] + 1
+			mpz_t acc, num, den, d, y; mpz_init(acc); mpz_init(num); mpz_init(den); mpz_init(d); mpz_init(y);
+			for (size_t a = 0; a <= t; a++) { mpz_set_ui(num, 1); mpz_set_ui(den, 1);
+				for (size_t b = 0; b <= t; b++) if (b != a) { mpz_mul_ui(num, num, pts[b] + 1); mpz_set_si(d, (long)(pts[b] + 1) - (long)(pts[a] + 1)); mpz_mul(den, den, d); }
+				mpz_mod(den, den, G.q); mpz_invert(den, den, G.q); mpz_mul(num, num, den); mpz_set_str(y, vals[a].c_str(), 16); mpz_mul(num, num, y); mpz_add(acc, acc, num); mpz_mod(acc, acc, G.q); }
+			if (!faulty[j] && !aj.empty() && hx(acc) != aj) propfail("nparty-share-not-on-polynomial", "the honest parties' shares of honest dealer " + std::to_string(j) + " interpolate to " + hx(acc) + ", its share is " + aj + ": " + ctx);
+			mpz_set(v, acc);
+			mpz_clear(acc); mpz_clear(num); mpz_clear(den); mpz_clear(d); mpz_clear(y);
+		} else { if (aj.empty()) { known = false; break; } mpz_set_str(v, aj.c_str(), 16); }
+		mpz_add(sum, sum, v); mpz_mod(sum, sum, G.q); }
 	if (known && hx(sum) != coin) propfail("nparty-coin-not-sum", "coin " + coin + " is not the sum " + hx(sum) + " of the committed shares of Qual={" + qual + "}: " + ctx);
 	for (size_t i = 0; i < n; i++) if (!faulty[i]) {
 		bool inq = std::find(Q.begin(), Q.end(), std::to_string(i)) != Q.end();
@@ -247,7 +301,7 @@ static bool nparty_once(std::vector<std::pair<std::string, std::string> > &pendi
 	}
 	// decision record per honest party: what every member of Qual broadcast (known from that member's own process), the commitment
 	// as stored by this party, the committed share as reconstruction result -> coin
-	if (known) for (size_t i = 0; i < n; i++) if (!faulty[i]) {
+	if (known && devs.empty()) for (size_t i = 0; i < n; i++) if (!faulty[i]) {
 		std::vector<std::string> Cs = split(res_get(FR.text[i], "C"), ',');
 		std::string members;
 		for (auto &js : Q) { if (js.empty()) continue; size_t j = strtoul(js.c_str(), 0, 10);
@@ -264,16 +318,16 @@ static bool nparty_once(std::vector<std::pair<std::string, std::string> > &pendi
 	fprintf(stderr, "c17: nparty %s wall=%.2fs\n", ctx.substr(0, 40).c_str(), FR.wall);
 	return finish();
 }
-static void nparty(const Grp &G, size_t n, size_t t, const std::vector<bool> &faulty, uint64_t seed) {
+static void nparty(const Grp &G, size_t n, size_t t, const std::vector<bool> &faulty, uint64_t seed, const Devs &devs = Devs()) {
 	n_nparty++;
 	std::vector<std::vector<std::pair<std::string, std::string> > > all;
-	for (int attempt = 0; attempt < 3; attempt++) { std::vector<std::pair<std::string, std::string> > pend; if (nparty_once(pend, G, n, t, faulty, seed + 7777 * attempt)) return; all.push_back(pend);
+	for (int attempt = 0; attempt < 3; attempt++) { std::vector<std::pair<std::string, std::string> > pend; if (nparty_once(pend, G, n, t, faulty, seed + 7777 * attempt, devs)) return; all.push_back(pend);
 		bool wall = false; for (auto &g : pend) if (g.first == "nparty-timeout") wall = true;
 		if (wall && attempt >= 1) { fprintf(stderr, "c17: nparty n=%zu: wall-clock limit hit twice, giving up (inconclusive)\n", n); return; } }
 	// a wrong coin value (not a failure to complete, not a disagreement) that repeats in every attempt is reported even though
 	// time-outs expired in all of them
 	for (auto &f : all.back()) {
-		bool every = (f.first == "nparty-coin-not-sum");
+		bool every = (f.first == "nparty-coin-not-sum" || f.first == "nparty-stale-share" || f.first == "nparty-coin-out-of-range");
 		for (auto &a : all) { bool has = false; for (auto &g : a) if (g.first == f.first) has = true; every = every && has; }
 		if (every) verif::propfail(f.first, f.second + " [repeated in 3 attempts, all with expired time-outs]");
 	}
@@ -377,25 +431,58 @@ int main(int argc, char **argv) {
 		}
 	}
 	}
+	// ---- one scripted n-party configuration: --only dev:n,t,dealer,victim,answer,opening[,drop] (for replay / debugging) -------
+	if (A.only.compare(0, 4, "dev:") == 0) {
+		unsigned n = 4, tt = 1, d = 0, v = 1, ans = 0, op = 1, dr = 0;
+		sscanf(A.only.c_str() + 4, "%u,%u,%u,%u,%u,%u,%u", &n, &tt, &d, &v, &ans, &op, &dr);
+		Grp G; G.generate(32, 64);
+		Devs devs; Deviation dv; if (dr) dv.drop.insert(v); else dv.wrong.insert(v); dv.answer = (int)ans; dv.opening = (int)op; devs[d] = dv;
+		nparty(G, n, tt, std::vector<bool>(n, false), gen().next() % 1000000, devs);
+		return 0;
+	}
 	// ---- n-party Flip (forked) ----------------------------------------------------------------------------------
 	if (A.only.empty() || A.only.compare(0, 6, "nparty") == 0) {
 		unsigned part = 0, parts = 1;
 		if (A.only.size() > 7) sscanf(A.only.c_str() + 7, "%u/%u", &part, &parts);
 		Grp G; G.generate(32, 64);
-		struct Cfg { size_t n, t; std::vector<size_t> bad; };
+		// bad = parties using the library's fault switch; dev >= 0: party `dev` deviates as scripted (wrong/no private share to `victims`,
+		// answer to their complaints 0 correct / 1 incorrect / 2 none, opening 0 correct / 1 mismatching / 2 none)
+		struct Cfg { size_t n, t; std::vector<size_t> bad; long dev; std::vector<size_t> victims; bool drop; int answer, opening; };
 		std::vector<Cfg> cfgs;
-		if (!T) cfgs = { {2, 0, {}}, {3, 1, {}}, {3, 1, {(size_t)gen().below(3)}}, {5, 2, {1, 3}} };
-		else {
+		auto subset = [&](size_t n, size_t k, size_t excl) { std::vector<size_t> v; while (v.size() < k) { size_t c = gen().below(n); if (c != excl && std::find(v.begin(), v.end(), c) == v.end()) v.push_back(c); } return v; };
+		if (!T) {
+			size_t d4 = gen().below(4), d5 = gen().below(5);
+			cfgs = { {2, 0, {}, -1, {}, false, 0, 0}, {3, 1, {}, -1, {}, false, 0, 0}, {3, 1, {(size_t)gen().below(3)}, -1, {}, false, 0, 0}, {5, 2, {1, 3}, -1, {}, false, 0, 0},
+				{4, 1, {}, (long)d4, subset(4, 1, d4), false, 0, 1},        // wrong share to one victim, correct answer, mismatching opening -> reconstruction
+				{5, 2, {}, (long)d5, subset(5, 2, d5), false, 1, 0} };      // wrong share to two victims, incorrect answer -> disqualified
+		} else {
 			for (size_t n = 2; n <= 7; n++) { size_t t = (n - 1) / 2;
-				cfgs.push_back({n, t, {}});
+				cfgs.push_back({n, t, {}, -1, {}, false, 0, 0});
 				for (size_t k = 1; k <= t; k++) for (int rep = 0; rep < 2; rep++) {
 					std::vector<size_t> bad; while (bad.size() < k) { size_t c = gen().below(n); if (std::find(bad.begin(), bad.end(), c) == bad.end()) bad.push_back(c); }
-					cfgs.push_back({n, t, bad}); } }
+					cfgs.push_back({n, t, bad, -1, {}, false, 0, 0}); } }
+			for (size_t n = 4; n <= 7; n++) { size_t t = (n - 1) / 2;
+				for (size_t k = 1; k <= t; k++) {
+					size_t d = gen().below(n);
+					cfgs.push_back({n, t, {}, (long)d, subset(n, k, d), false, 0, 1});       // the stale-share pattern
+					cfgs.push_back({n, t, {}, (long)d, subset(n, k, d), false, 0, 0});       // correct answer, correct opening
+					cfgs.push_back({n, t, {}, (long)d, subset(n, k, d), false, 1, (int)gen().below(2)}); }
+				size_t d = gen().below(n);
+				cfgs.push_back({n, t, {}, (long)d, {}, false, 0, 1});                         // mismatching opening only
+				if (n <= 5) {
+					cfgs.push_back({n, t, {}, (long)d, subset(n, 1, d), true, 0, 1});         // nothing sent to the victim, correct answer, mismatching opening
+					cfgs.push_back({n, t, {}, (long)d, subset(n, 1, d), false, 2, 0});        // no answer to the complaint (silent from there on)
+					cfgs.push_back({n, t, {}, (long)d, {}, false, 0, 2}); }                   // opening withheld
+				// one scripted deviator next to one library-faulty party
+				if (t >= 2) { size_t d2 = gen().below(n); std::vector<size_t> o = subset(n, 1, d2); cfgs.push_back({n, t, o, (long)d2, subset(n, 1, d2), false, 0, 1}); }
+			}
 		}
 		for (size_t ci = 0; ci < cfgs.size(); ci++) { Cfg &c = cfgs[ci];
 			std::vector<bool> f(c.n, false); for (size_t b : c.bad) f[b] = true;
+			Devs devs;
+			if (c.dev >= 0) { Deviation d; for (size_t v : c.victims) { if (c.drop) d.drop.insert(v); else d.wrong.insert(v); } d.answer = c.answer; d.opening = c.opening; if (d.active()) devs[(size_t)c.dev] = d; }
 			uint64_t sd = gen().next() % 1000000;
-			if (ci % parts == part) nparty(G, c.n, c.t, f, sd); }
+			if (ci % parts == part) nparty(G, c.n, c.t, f, sd, devs); }
 	}
 	mpz_clear(x); mpz_clear(y); mpz_clear(C); mpz_clear(t);
 	fprintf(stderr, "c17: %lu runs, %lu n-party runs\n", n_runs, n_nparty);
